@@ -1263,4 +1263,455 @@ class Exporters(Contract):
             ex.oblige(self.oname("ensures:the_archive_is_filled_by_walking_the_job_directory"), z3.BoolVal(g.get("walked") is src), note=repr(g.get("walked")))
 
 
-CONTRACTS += [PrepareImport(), ImportIntoProject(), ProjectImportFrom(), Exporters("directory"), Exporters("tarfile"), Exporters("zipfile")]
+# ============================================================================= _analyze_tarfile_for_import: which archive directories become jobs
+# Archive directory names are abstract (sort AD) with a parent function (os.path.dirname).  Assumptions (stated): the member list is
+# ancestor-closed up to the archive root (tarfile.add / signac's own export list every directory), and sorted() puts a directory after
+# its parent (a proper prefix sorts first).  Specification, by recursion over the directory tree:
+#   COVERED(d)  :=  d is a listed directory and (COVERED(parent d) or the schema identifies d)      -- d lies in or is an identified job directory
+#   MAPPED(d)   :=  d is listed, not COVERED(parent d), and the schema identifies d                -- d is imported as a job
+
+AD = z3.DeclareSort("ArchDir")
+ADPARENT = z3.Function("ADPARENT", AD, AD)
+LISTED = z3.Function("LISTED", AD, z3.BoolSort())
+SCHEMA_ID = z3.Function("SCHEMA_ID", AD, z3.BoolSort())
+COVERED = z3.Function("COVERED", AD, z3.BoolSort())
+AD_AT = z3.Function("AD_AT", z3.IntSort(), AD)
+AD_N = z3.Int("ad_n")
+JOBOF = z3.Function("JOBOF", AD, JobK)
+JOB_EXISTS = z3.Function("JOB_EXISTS", JobK, z3.BoolSort())
+
+
+def MAPPED(d):
+    return z3.And(LISTED(d), z3.Not(COVERED(ADPARENT(d))), SCHEMA_ID(d))
+
+
+class SAD(Sym):
+    def __init__(self, e):
+        self.e = e
+
+    def sym_hashable(self):
+        return True
+
+
+class SADSorted(Sym):
+    def sym_iter(self, ex):
+        def at(interp, i):
+            interp.ctx.ghost["ad_i"] = i
+            return SAD(AD_AT(i))
+        return CutSeq(AD_N, at, label="names")
+
+
+class SADMap(Sym):
+    """mappings: archive directory -> job"""
+
+    def __init__(self, dom):
+        self.dom = dom
+
+    def sym_setitem(self, ex, k, v):
+        if not (isinstance(k, SAD) and isinstance(v, SJobK) and z3.eq(v.e, JOBOF(k.e))):
+            raise Unsupported("mappings[name] = something other than the job opened for that name")
+        cur = self.dom
+        self.dom = lambda x, cur=cur, e=k.e: z3.Or(cur(x), x == e)
+
+    def sym_getattr(self, ex, name):
+        if name == "values":
+            return NativeStub(lambda: SADValues(self), "dict.values")
+        if name == "items":
+            return NativeStub(lambda: SADItems(self), "dict.items")
+        raise Unsupported(f"mappings.{name}")
+
+    def sym_len(self, ex):
+        return SADCount(self.dom, distinct_jobs=False)
+
+
+class SADValues(Sym):
+    def __init__(self, m):
+        self.m = m
+
+
+class SADItems(Sym):
+    def __init__(self, m):
+        self.m = m
+
+    def sym_iter(self, ex):
+        m = self.m
+        n = z3.Int(ex.fresh_name("n_mapped"))
+        en = z3.Function(ex.fresh_name("MAPPED_AT"), z3.IntSort(), AD)
+        a, b = z3.Ints("ma mb")
+        x = z3.Const("mx", AD)
+        ex.assume(n >= 0)
+        ex.assume(z3.ForAll([x], m.dom(x) == z3.Exists([a], z3.And(0 <= a, a < n, en(a) == x))))
+        ex.assume(z3.ForAll([a, b], z3.Implies(z3.And(0 <= a, a < b, b < n), en(a) != en(b))))
+
+        def at(interp, i):
+            interp.ctx.ghost["map_i"] = en(i)
+            interp.ctx.ghost["yielded"] = []
+            return (SAD(en(i)), SJobK(JOBOF(en(i))))
+        return CutSeq(n, at, label="mapped")
+
+
+class SADCount(Sym):
+    """len(mappings) / len(set(mappings.values())): compared with each other only -- equal iff JOBOF is injective on the mapped directories"""
+
+    def __init__(self, dom, distinct_jobs):
+        self.dom, self.distinct_jobs = dom, distinct_jobs
+
+    def sym_eq(self, ex, other):
+        if isinstance(other, SADCount) and self.distinct_jobs != other.distinct_jobs:
+            ex.assumptions_used.add("len(set(values)) == len(mapping) iff no two keys have equal values (finite cardinalities)")
+            a, b = z3.Consts("ca cb", AD)
+            return SBool(z3.ForAll([a, b], z3.Implies(z3.And(self.dom(a), self.dom(b), a != b), JOBOF(a) != JOBOF(b))))
+        raise Unsupported("comparison of this count")
+
+
+class TarCtx(Ctx):
+    def __init__(self, contract, case):
+        super().__init__(contract, case)
+        self.externals[set] = self.x_set
+        self.externals[os.path.dirname] = lambda interp, p: SAD(ADPARENT(p.e)) if isinstance(p, SAD) else (_ for _ in ()).throw(Unsupported("dirname shape"))
+        self.externals[os.path.exists] = lambda interp, p: SBool(JOB_EXISTS(p[1])) if isinstance(p, tuple) and p[0] == "job-path" else (_ for _ in ()).throw(Unsupported("exists shape"))
+        self.externals[os.path.isdir] = lambda interp, p: True
+        self.externals[os.path.join] = lambda interp, *a: ("join",) + a
+
+    def x_set(self, interp, *a):
+        if not a:
+            return SymSet.empty(AD)
+        if isinstance(a[0], SADValues):
+            return SADValSet(a[0].m)
+        raise Unsupported("set(x)")
+
+    def comprehension(self, interp, node, frame):
+        import ast
+        if ast.unparse(node) == "[member.name for member in tarfile.getmembers() if member.isdir()]":
+            return SADDirs()
+        return NotImplemented
+
+    def builtin_hook(self, interp, f, args, kw):
+        if f is sorted and len(args) == 1 and isinstance(args[0], SADDirs) and not kw:
+            return SADSorted()
+        return super().builtin_hook(interp, f, args, kw)
+
+    def instantiate(self, interp, rc, args, kw):
+        if rc.name == "_CopyFromTarFileExecutor":
+            return ("executor", args, kw)
+        return NotImplemented
+
+
+class SADDirs(Sym):
+    pass
+
+
+class SADValSet(Sym):
+    def __init__(self, m):
+        self.m = m
+
+    def sym_len(self, ex):
+        return SADCount(self.m.dom, distinct_jobs=True)
+
+
+class AnalyzeTarfile(Contract):
+    target = f"{IE}._analyze_tarfile_for_import"
+    properties = ("C16",)
+    ctx_class = TarCtx
+    assumptions = ("the archive lists every directory between a listed directory and the archive root (tarfile.add does); sorted() puts a directory after its parent",)
+
+    def make_ctx(self, case):
+        ctx = super().make_ctx(case)
+        g = ctx.ghost
+        g["yielded"], g["extracted"] = [], []
+        g["schema"] = NativeStub(lambda name: self.schema(ctx, name), "schema function")
+        ctx.callee_contracts[f"{IE}._with_consistency_check"] = lambda interp, b: g["schema"]
+        ctx.callee_contracts[f"{IE}._make_path_based_schema_function"] = lambda interp, b: STok("path-schema")
+        return ctx
+
+    def schema(self, ctx, name):
+        ex = ctx.ghost["interp"].ex
+        if not isinstance(name, SAD):
+            raise Unsupported("schema function argument")
+        ctx.ghost.setdefault("schema_calls", []).append(name.e)
+        if ex.decide(SCHEMA_ID(name.e), "schema:identifies-a-job"):
+            return ("statepoint-of", name.e)
+        return None
+
+    def loops(self, case):
+        x = z3.Const("tx", AD)
+        j = z3.Int("tj")
+
+        def state(interp, fr):
+            sk, mp = interp.lookup(fr, "skip_subdirs"), interp.lookup(fr, "mappings")
+            if not isinstance(sk, SymSet):
+                raise Unsupported("skip_subdirs is not a set of archive directories")
+            dom = (lambda y: z3.BoolVal(False)) if (isinstance(mp, dict) and not mp) else mp.dom if isinstance(mp, SADMap) else None
+            if dom is None:
+                raise Unsupported("mappings is not the mapping under construction")
+            return sk, dom
+
+        def inv(interp, fr, i, seq):
+            sk, dom = state(interp, fr)
+            done = lambda y: z3.Exists([j], z3.And(0 <= j, j < i, AD_AT(j) == y))
+            return z3.ForAll([x], z3.And(sk.member(x) == z3.And(done(x), COVERED(x)), dom(x) == z3.And(done(x), MAPPED(x)),
+                                         z3.Implies(z3.And(done(x), MAPPED(x)), z3.Not(JOB_EXISTS(JOBOF(x))))))
+
+        def hv_sk(interp, fr, tag):
+            return SymSet.fresh(interp.ex, tag, AD)
+
+        def hv_mp(interp, fr, tag):
+            f = z3.Function(interp.ex.fresh_name("mapdom"), AD, z3.BoolSort())
+            return SADMap(lambda y, f=f: f(y))
+
+        def body_mapped(interp, fr, w):
+            ex, g = interp.ex, interp.ctx.ghost
+            d, ys = g["map_i"], g["yielded"]
+            ok = len(ys) == 1 and isinstance(ys[0], tuple) and len(ys[0]) == 2 and ys[0][0] == ("join", "TMPDIR", ys[0][0][2]) and isinstance(ys[0][0][2], SAD) \
+                and isinstance(ys[0][1], tuple) and ys[0][1][0] == "executor" and len(ys[0][1][1]) == 2 and ys[0][1][1][0] == ys[0][0] and isinstance(ys[0][1][1][1], SJobK)
+            ex.oblige(self.oname("loop[mapped]:every_mapped_directory_is_reported_once_with_an_executor_for_its_extracted_copy_and_its_job"),
+                      z3.And(z3.BoolVal(bool(ok)), ys[0][0][2].e == d, ys[0][1][1][1].e == JOBOF(d)) if ok else z3.BoolVal(False), note=repr(ys)[:300])
+            ex.oblige(self.oname("loop[mapped]:the_archive_is_extracted_into_the_temporary_directory_before_anything_is_reported"), z3.BoolVal(len(g["extracted"]) == 1))
+        return {"names": LoopSpec("directories", inv, havoc={"skip_subdirs": hv_sk, "mappings": hv_mp}, scratch=("name", "sp", "job"), heap_frame=lambda interp, fr, w: None),
+                "mapped": LoopSpec("mapped", lambda interp, fr, i, seq: z3.BoolVal(True), scratch=("path", "job", "src", "copy_executor"), heap_frame=body_mapped)}
+
+    def setup(self, interp, case):
+        ex, g = interp.ex, interp.ctx.ghost
+        g["interp"] = interp
+        a, b = z3.Ints("sa sb")
+        x = z3.Const("sx", AD)
+        ex.assume(z3.And(AD_N >= 0,
+                         z3.ForAll([x], LISTED(x) == z3.Exists([a], z3.And(0 <= a, a < AD_N, AD_AT(a) == x))),
+                         z3.ForAll([a, b], z3.Implies(z3.And(0 <= a, a < b, b < AD_N), AD_AT(a) != AD_AT(b))),
+                         # sorted(): a listed parent comes before its child
+                         z3.ForAll([a], z3.Implies(z3.And(0 <= a, a < AD_N, LISTED(ADPARENT(AD_AT(a)))), z3.Exists([b], z3.And(0 <= b, b < a, AD_AT(b) == ADPARENT(AD_AT(a)))))),
+                         # the specification's recursion
+                         z3.ForAll([x], COVERED(x) == z3.And(LISTED(x), z3.Or(COVERED(ADPARENT(x)), SCHEMA_ID(x))))))
+
+        class STarF(Sym):
+            def sym_getattr(self, ex_, name):
+                if name == "extractall":
+                    return NativeStub(lambda *a_, **k: g["extracted"].append((a_, k)), "tarfile.extractall")
+                if name == "getmembers":
+                    return NativeStub(lambda: "members", "tarfile.getmembers")
+                raise Unsupported(f"tarfile.{name}")
+
+        class SProj2(Sym):
+            def sym_getattr(self, ex_, name):
+                if name == "open_job":
+                    return NativeStub(lambda sp: SJobAtK(sp[1]) if isinstance(sp, tuple) and sp[0] == "statepoint-of" else (_ for _ in ()).throw(Unsupported("open_job argument")), "project.open_job")
+                raise Unsupported(f"project.{name}")
+        return [STarF(), SProj2(), g["schema"], "TMPDIR"], {}, {}
+
+    def yield_hook(self, interp, case, pre):
+        return lambda v: interp.ctx.ghost["yielded"].append(v)
+
+    def post(self, interp, case, pre, outcome):
+        from signac.errors import DestinationExistsError, StatepointParsingError
+        ex, g = interp.ex, interp.ctx.ghost
+        a, b = z3.Consts("pa pb", AD)
+        clash = z3.Exists([a, b], z3.And(MAPPED(a), MAPPED(b), a != b, JOBOF(a) == JOBOF(b)))
+        occupied = z3.Exists([a], z3.And(MAPPED(a), JOB_EXISTS(JOBOF(a))))
+        if outcome[0] == "return":
+            ex.oblige(self.oname("ensures:completes_only_if_no_two_imported_directories_map_to_one_job_and_no_target_job_exists"), z3.And(z3.Not(clash), z3.Not(occupied)))
+        else:
+            e = outcome[1]
+            if isinstance(e, DestinationExistsError):
+                ex.oblige(self.oname("raises:DestinationExistsError_only_for_an_existing_target_job_and_before_anything_is_extracted"), z3.And(occupied, z3.BoolVal(not g["extracted"])))
+            elif isinstance(e, StatepointParsingError):
+                ex.oblige(self.oname("raises:StatepointParsingError_only_if_two_directories_map_to_one_job_and_before_anything_is_extracted"), z3.And(clash, z3.BoolVal(not g["extracted"])))
+            else:
+                ex.oblige(self.oname("raises:nothing_else"), False, note=repr(e))
+
+
+class SJobAtK(SJobK):
+    """the job opened for the state point of archive directory d"""
+
+    def __init__(self, d):
+        super().__init__(JOBOF(d))
+        self.dir = d
+
+    def sym_getattr(self, ex, name):
+        if name == "path":
+            return ("job-path", self.e)
+        raise Unsupported(f"job.{name}")
+
+
+# ============================================================================= _analyze_zipfile_for_import
+# Same abstraction (sort AD for the directory names of the archive).  A directory is skipped when an already identified one is the
+# archive root (""), the directory itself, or a proper ancestor (name.startswith(skip + "/")): ANCS(s, x).  Specification:
+#   MZ(x) := x is a listed directory, the schema identifies it, and no other identified directory s has ANCS(s, x)
+# (well-founded because ancestors sort first; stated as the recursion equation below).
+
+ISROOT = z3.Function("ISROOT", AD, z3.BoolSort())
+PANC = z3.Function("PANC", AD, AD, z3.BoolSort())          # x.startswith(s + "/")
+MZ = z3.Function("MZ", AD, z3.BoolSort())
+MEMBER_UNDER = z3.Function("MEMBER_UNDER", AD, z3.IntSort(), z3.BoolSort())   # archive member k lies under directory d (d == "" or name.startswith(d + "/"))
+
+
+def ANCS(s_, x):
+    return z3.Or(ISROOT(s_), x == s_, PANC(s_, x))
+
+
+class SADz(SAD):
+    def sym_eq(self, ex, other):
+        if other == "":
+            return SBool(ISROOT(self.e))
+        if isinstance(other, SAD):
+            return SBool(self.e == other.e)
+        raise Unsupported("directory name == this value")
+
+    def sym_binop(self, ex, op, other, reflected=False):
+        if op == "Add" and other == "/" and not reflected:
+            return ("with-slash", self.e)
+        raise Unsupported("directory name arithmetic")
+
+    def sym_getattr(self, ex, name):
+        if name == "startswith":
+            def sw(p):
+                if isinstance(p, tuple) and p[0] == "with-slash":
+                    return SBool(PANC(p[1], self.e))
+                raise Unsupported("startswith argument")
+            return NativeStub(sw, "str.startswith")
+        raise Unsupported(f"str.{name} on a directory name")
+
+
+class SADSortedZ(Sym):
+    def sym_iter(self, ex):
+        def at(interp, i):
+            interp.ctx.ghost["ad_i"] = i
+            return SADz(AD_AT(i))
+        return CutSeq(AD_N, at, label="names")
+
+
+class SSkipSet(SymSet):
+    def sym_iter(self, ex):
+        n = z3.Int(ex.fresh_name("n_skip"))
+        en = z3.Function(ex.fresh_name("SKIP_AT"), z3.IntSort(), AD)
+        a, b = z3.Ints("ka kb")
+        x = z3.Const("kx", AD)
+        ex.assume(n >= 0)
+        ex.assume(z3.ForAll([x], self.member(x) == z3.Exists([a], z3.And(0 <= a, a < n, en(a) == x))))
+        ex.assume(z3.ForAll([a, b], z3.Implies(z3.And(0 <= a, a < b, b < n), en(a) != en(b))))
+        cs = CutSeq(n, lambda interp, i: SADz(en(i)), label="skips")
+        cs.en = en
+        return cs
+
+
+class ZipCtx(TarCtx):
+    def x_set(self, interp, *a):
+        if not a:
+            return SSkipSet(lambda x: z3.BoolVal(False), AD)
+        return super().x_set(interp, *a)
+
+    def comprehension(self, interp, node, frame):
+        import ast
+        src = ast.unparse(node)
+        if src == "{os.path.dirname(name) for name in names}":
+            return SADDirs()
+        if src == "[name for name in names if src == '' or name.startswith(src + '/')]":
+            d = interp.lookup(frame, "src")
+            if isinstance(d, SAD):
+                return ("members-under", d.e)
+        return NotImplemented
+
+    def builtin_hook(self, interp, f, args, kw):
+        if f is sorted and len(args) == 1 and isinstance(args[0], SADDirs) and not kw:
+            return SADSortedZ()
+        return Ctx.builtin_hook(self, interp, f, args, kw)
+
+    def instantiate(self, interp, rc, args, kw):
+        if rc.name == "_CopyFromZipFileExecutor":
+            return ("executor", args, kw)
+        return NotImplemented
+
+
+class AnalyzeZipfile(AnalyzeTarfile):
+    target = f"{IE}._analyze_zipfile_for_import"
+    ctx_class = ZipCtx
+    assumptions = ("sorted() puts a directory name after every name that is its proper prefix followed by '/' and after the empty name",)
+
+    def loops(self, case):
+        x = z3.Const("zx", AD)
+        j = z3.Int("zj")
+
+        def state(interp, fr):
+            sk, mp = interp.lookup(fr, "skip_subdirs"), interp.lookup(fr, "mappings")
+            if not isinstance(sk, SymSet):
+                raise Unsupported("skip_subdirs is not a set of archive directories")
+            dom = (lambda y: z3.BoolVal(False)) if (isinstance(mp, dict) and not mp) else mp.dom if isinstance(mp, SADMap) else None
+            if dom is None:
+                raise Unsupported("mappings is not the mapping under construction")
+            return sk, dom
+
+        def inv(interp, fr, i, seq):
+            sk, dom = state(interp, fr)
+            done = lambda y: z3.Exists([j], z3.And(0 <= j, j < i, AD_AT(j) == y))
+            return z3.ForAll([x], z3.And(sk.member(x) == z3.And(done(x), MZ(x)), dom(x) == z3.And(done(x), MZ(x)),
+                                         z3.Implies(z3.And(done(x), MZ(x)), z3.Not(JOB_EXISTS(JOBOF(x))))))
+
+        def inv_skips(interp, fr, k, seq):
+            name = interp.lookup(fr, "name")
+            cont = interp.lookup(fr, "cont")
+            return z3.And(z3.BoolVal(cont is False), z3.ForAll([j], z3.Implies(z3.And(0 <= j, j < k), z3.Not(ANCS(seq.en(j), name.e)))))
+
+        def hv_sk(interp, fr, tag):
+            f = z3.Function(interp.ex.fresh_name("skipset"), AD, z3.BoolSort())
+            return SSkipSet(lambda y, f=f: f(y), AD)
+
+        def hv_mp(interp, fr, tag):
+            f = z3.Function(interp.ex.fresh_name("mapdom"), AD, z3.BoolSort())
+            return SADMap(lambda y, f=f: f(y))
+
+        def body_mapped(interp, fr, w):
+            ex, g = interp.ex, interp.ctx.ghost
+            d, ys = g["map_i"], g["yielded"]
+            ok = len(ys) == 1 and isinstance(ys[0], tuple) and len(ys[0]) == 2 and isinstance(ys[0][0], SAD) and isinstance(ys[0][1], tuple) and ys[0][1][0] == "executor" \
+                and len(ys[0][1][1]) == 4 and ys[0][1][1][0] is g["zipfile"] and isinstance(ys[0][1][1][1], SAD) and isinstance(ys[0][1][1][2], SJobK) and isinstance(ys[0][1][1][3], tuple)
+            ex.oblige(self.oname("loop[mapped]:every_mapped_directory_is_reported_once_with_an_executor_for_the_archive_members_below_it_and_its_job"),
+                      z3.And(z3.BoolVal(bool(ok)), ys[0][0].e == d, ys[0][1][1][1].e == d, ys[0][1][1][2].e == JOBOF(d), ys[0][1][1][3][1] == d) if ok else z3.BoolVal(False), note=repr(ys)[:300])
+        return {"names": LoopSpec("directories", inv, havoc={"skip_subdirs": hv_sk, "mappings": hv_mp}, scratch=("name", "sp", "job", "cont", "skip"), heap_frame=lambda interp, fr, w: None),
+                "skips": LoopSpec("skips", inv_skips, havoc={"cont": lambda interp, fr, tag: False}, scratch=("skip",), on_break="continue"),
+                "mapped": LoopSpec("mapped", lambda interp, fr, i, seq: z3.BoolVal(True), scratch=("src", "job", "_names", "copy_executor"), heap_frame=body_mapped)}
+
+    def setup(self, interp, case):
+        ex, g = interp.ex, interp.ctx.ghost
+        g["interp"] = interp
+        a, b = z3.Ints("sa sb")
+        x, y = z3.Consts("sx sy", AD)
+        ex.assume(z3.And(AD_N >= 0,
+                         z3.ForAll([x], LISTED(x) == z3.Exists([a], z3.And(0 <= a, a < AD_N, AD_AT(a) == x))),
+                         z3.ForAll([a, b], z3.Implies(z3.And(0 <= a, a < b, b < AD_N), AD_AT(a) != AD_AT(b))),
+                         # sorted(): a listed name that is the root / a proper ancestor of another listed name comes first
+                         z3.ForAll([a, b], z3.Implies(z3.And(0 <= a, a < AD_N, 0 <= b, b < AD_N, a != b, ANCS(AD_AT(b), AD_AT(a))), b < a)),
+                         # the specification's recursion
+                         z3.ForAll([x], MZ(x) == z3.And(LISTED(x), SCHEMA_ID(x), z3.Not(z3.Exists([y], z3.And(MZ(y), y != x, ANCS(y, x))))))))
+
+        class SZipF(Sym):
+            def sym_getattr(self, ex_, name):
+                if name == "namelist":
+                    return NativeStub(lambda: "names", "zipfile.namelist")
+                raise Unsupported(f"zipfile.{name}")
+
+        class SProj2(Sym):
+            def sym_getattr(self, ex_, name):
+                if name == "open_job":
+                    return NativeStub(lambda sp: SJobAtK(sp[1]) if isinstance(sp, tuple) and sp[0] == "statepoint-of" else (_ for _ in ()).throw(Unsupported("open_job argument")), "project.open_job")
+                raise Unsupported(f"project.{name}")
+        g["zipfile"] = SZipF()
+        return [g["zipfile"], SProj2(), g["schema"]], {}, {}
+
+    def post(self, interp, case, pre, outcome):
+        from signac.errors import DestinationExistsError, StatepointParsingError
+        ex, g = interp.ex, interp.ctx.ghost
+        a, b = z3.Consts("pa pb", AD)
+        clash = z3.Exists([a, b], z3.And(MZ(a), MZ(b), a != b, JOBOF(a) == JOBOF(b)))
+        occupied = z3.Exists([a], z3.And(MZ(a), JOB_EXISTS(JOBOF(a))))
+        if outcome[0] == "return":
+            ex.oblige(self.oname("ensures:completes_only_if_no_two_imported_directories_map_to_one_job_and_no_target_job_exists"), z3.And(z3.Not(clash), z3.Not(occupied)))
+        else:
+            e = outcome[1]
+            if isinstance(e, DestinationExistsError):
+                ex.oblige(self.oname("raises:DestinationExistsError_only_for_an_existing_target_job"), occupied)
+            elif isinstance(e, StatepointParsingError):
+                ex.oblige(self.oname("raises:StatepointParsingError_only_if_two_directories_map_to_one_job"), clash)
+            else:
+                ex.oblige(self.oname("raises:nothing_else"), False, note=repr(e))
+
+
+CONTRACTS += [PrepareImport(), ImportIntoProject(), ProjectImportFrom(), Exporters("directory"), Exporters("tarfile"), Exporters("zipfile"), AnalyzeTarfile(), AnalyzeZipfile()]
